@@ -1,7 +1,6 @@
-package schedx
+package schedsync
 
 import (
-	"context"
 	"fmt"
 	"os"
 	"strings"
@@ -10,7 +9,6 @@ import (
 	"testing"
 	"time"
 
-	"github.com/celestiaorg/go-header/store"
 	"github.com/celestiaorg/go-header/verifrt/vrt"
 
 	"verif/vk"
@@ -18,14 +16,12 @@ import (
 
 // Env is what a scenario sees during one controlled execution.
 type Env struct {
-	St      *store.Store[*vk.H]
-	C       vk.Chain
-	DS      *vk.LogDS
+	W       *World
 	S       *vrt.Sched
-	Batch   int
 	threads []*thr
 	mu      sync.Mutex
 	Notes   map[string]any
+	order   int
 }
 
 type thr struct {
@@ -61,15 +57,13 @@ func (e *Env) Get(k string) any {
 	return e.Notes[k]
 }
 
-// Scenario is one concurrent program over the real (instrumented) store.
+// Scenario is one concurrent program over the real (instrumented) sync package.
 type Scenario struct {
-	Name    string
-	Batch   int
-	Preload uint64 // c[1..Preload] appended and synced before the run
-	// Setup runs after preload in free mode (e.g. a tail deletion).
-	Setup func(e *Env)
+	Name  string
+	Batch int // store batch size
+	Cfg   WCfg
 	Build func(e *Env)
-	// Check is the per-execution oracle (free mode, after the run, before Stop).
+	// Check is the per-execution oracle (free mode, after the run).
 	Check func(e *Env, x *Exec, viol func(clause, format string, a ...any))
 }
 
@@ -86,10 +80,6 @@ type Exec struct {
 	BubbleErr string
 	Outcome   string
 }
-
-const chainN = 8
-
-var chain = vk.GenChain(vk.ChainSpec{N: chainN, Step: time.Second})
 
 // execute runs the scenario once under the schedule given by prefix (then default choices).
 func execute(t *testing.T, run *vk.Run, sc Scenario, prefix []int, logOn bool) (x *Exec, log []string) {
@@ -113,37 +103,24 @@ func execute(t *testing.T, run *vk.Run, sc Scenario, prefix []int, logOn bool) (
 		s.Horizon = time.Hour
 		s.Attach()
 		defer s.Detach()
-		ds := vk.NewLogDS()
-		ds.OnOp = func(kind string) { vrt.Point("ds."+kind, nil) }
-		st, err := store.NewStore[*vk.H](ds.Wrap(false), store.WithWriteBatchSize(sc.Batch))
+		w, err := NewWorld(sc.Cfg, sc.Batch)
 		if err != nil {
 			x.BubbleErr = err.Error()
 			return
 		}
-		bg := context.Background()
-		if err := st.Start(bg); err != nil {
-			x.BubbleErr = err.Error()
-			return
-		}
-		e := &Env{St: st, C: chain, DS: ds, S: s, Batch: sc.Batch, Notes: map[string]any{}}
-		if sc.Preload > 0 {
-			_ = st.Append(bg, chain.Slice(1, sc.Preload)...)
-			vk.Settle()
-			_ = st.Sync(bg)
-		}
-		if sc.Setup != nil {
-			sc.Setup(e)
-		}
+		defer w.Close()
+		e := &Env{W: w, S: s, Notes: map[string]any{}}
 		vk.Settle()
 		s.Activate()
 		sc.Build(e)
-		s.SetDone(func(bool) bool {
+		s.SetDone(func(noneEnabled bool) bool {
 			for _, th := range e.threads {
 				if !th.done.Load() {
 					return false
 				}
 			}
-			return true
+			// the scenario threads are done; the run ends once the sync loop has nothing left to do
+			return noneEnabled
 		})
 		s.Run()
 		x.Trace = append([]vrt.Choice(nil), s.Trace...)
@@ -159,15 +136,9 @@ func execute(t *testing.T, run *vk.Run, sc Scenario, prefix []int, logOn bool) (
 		log = s.Log()
 		vk.Settle()
 		if !x.Deadlock && !x.Livelock {
-			sctx, sc2 := context.WithTimeout(bg, time.Minute)
-			_ = st.Sync(sctx)
-			sc2()
-			vk.Settle()
+			w.Quiesce()
 			scCheck(sc, e, x, run, prefix)
 		}
-		sctx, cancel := context.WithTimeout(bg, time.Minute)
-		_ = st.Stop(sctx)
-		cancel()
 	})
 	if br.Panic != "" {
 		x.BubbleErr = br.Panic + "\n" + br.Stack
@@ -184,7 +155,7 @@ type schedCase struct {
 	Schedule []int  `json:"schedule"`
 }
 
-var curPropID = "C12"
+var curPropID = "C03"
 
 func scCheck(sc Scenario, e *Env, x *Exec, run *vk.Run, prefix []int) {
 	viol := func(clause, format string, a ...any) {
